@@ -118,8 +118,9 @@ def runRound (hdr : List String) (body : List (List String)) (nx : Slot) : List 
   let pre : Option RK := (body.filterMap (fun w => match w with
     | "pre" :: rest => parseRK rest
     | "imm" :: rest => parseRK rest
+    | ["fthrow", c] => c.toNat?.map RK.exc     -- the factory throws: `result_of` resolves the re-created future with the exception
     | _ => none)).head?
-  let isImm := body.any (fun w => w.head? == some "imm")
+  let isImm := body.any (fun w => w.head? == some "imm" || w.head? == some "fthrow")
   let hasD := threads.any (fun w => w.head? == some "d")
   let sched := (body.filter (fun w => w.head? == some "sched")).flatMap (fun w => (w.drop 1).filterMap String.toNat?)
   let rk : Nat → Option RK := fun i => match tarr[i]? with
